@@ -990,16 +990,32 @@ func (fr *Frame) runSites(ins ssa.Instruction, when string, pc string, st *State
 			// source-level name of the first argument when it is a variable (phi / parameter), e.g. which slice is appended to
 			an := ""
 			if len(c.Args) > 0 {
-				switch a := c.Args[0].(type) {
+				a0 := c.Args[0]
+				if ct, ok := a0.(*ssa.ChangeType); ok {
+					// a conversion between named types of the same underlying type keeps the variable it was applied to
+					a0 = ct.X
+				}
+				switch a := a0.(type) {
 				case *ssa.Phi:
 					an = a.Comment
 				case *ssa.Parameter:
 					an = a.Name()
 				default:
-					an = fr.debugName(c.Args[0])
+					an = fr.debugName(a0)
+					if an == "" {
+						if u, ok := a0.(*ssa.UnOp); ok && u.Op == token.MUL {
+							// the current value of an address-taken local or of a captured variable
+							switch x := u.X.(type) {
+							case *ssa.Alloc:
+								an = x.Comment
+							case *ssa.FreeVar:
+								an = x.Name()
+							}
+						}
+					}
 				}
 			}
-			env.vars["argname0"] = tv{t: vc.d.strLit(an), ty: tString}
+			env.vars["argname0"] = tv{t: vc.d.strLit(fr.aliased(an)), ty: tString}
 			// which function literal is passed (by structural name), for higher-order calls such as Filtered(func...)
 			for i, a := range c.Args {
 				cn := ""
